@@ -187,6 +187,42 @@ impl Checker for C14 {
                 }
             }
         }
+        // a truncate of f that failed because of one storage fault; the caller carries on: writes, flushes.
+        // The file as found in the final image (independent decoder) must have a sound chain whose clusters are all
+        // marked used, and the library must read the same bytes after a remount.
+        if let Some(Op::Truncate { h: 0 }) = ops.last() {
+            let n = ops.len();
+            if n <= 5 && ex.calls_last <= 400 && matches!(ex.outs.last(), Some(Ok(_))) {
+                let mut ops2 = ops.to_vec();
+                ops2.push(Op::WriteAll { h: 0, len: 512 });
+                ops2.push(Op::Flush { h: 0 });
+                for k in 1..=ex.calls_last {
+                    let plan = Plan { fault: Some((k, 0x00FC_0000 + k as u32)), fault_op: Some(n - 1), ..self.plan() };
+                    let fx = sess::run(cfg, &ops2, &plan);
+                    if fx.panic.is_some() || fx.fired_early.is_none() {
+                        continue;
+                    }
+                    let ok_after = (n..ops2.len()).all(|i| match fx.outs.get(i) {
+                        Some(Ok(Out::Progress { err, .. })) => err.is_none(),
+                        Some(Ok(_)) => true,
+                        _ => false,
+                    });
+                    if !ok_after {
+                        continue;
+                    }
+                    let st = image_from(cfg, &fx.log, &|_| true);
+                    let Ok(dec) = sess::decode_dev(&st, cfg, &[]) else { continue };
+                    let Some(want2) = dec.find_entry("/f").and_then(|e| e.content.clone()) else { continue };
+                    self.ctr.crash_images.fetch_add(1, Ordering::Relaxed);
+                    let r = check_image(cfg, st, &want2, "truncate-failed-then-continued");
+                    *self.ctr.classes.lock().unwrap().entry(format!("truncate-failed-then-continued:{}", if r.is_some() { "LOST" } else { "intact" })).or_default() += 1;
+                    if let Some((sig, msg)) = r {
+                        v.push((sig, format!("{msg} [device call {k}/{} of {:?} failed once; the caller went on writing and flushed]", ex.calls_last, ops[n - 1])));
+                        break;
+                    }
+                }
+            }
+        }
         let Some(p) = p else { return v };
         // the flushed file = the node behind handle 0 at the durability point. It may have been renamed (f -> r)
         // since: a rename is not itself durable, so from then on the file may be found under either name
@@ -354,6 +390,24 @@ pub fn specs(tier: &str) -> Vec<ExpSpec> {
         let r = DirRef::Root;
         let prefix = vec![Op::CreateFile { base: r, path: "f".into(), keep: Some(0) }, Op::WriteAll { h: 0, len: 512 }, Op::Flush { h: 0 }];
         v.push(ExpSpec::new(c, alphabet(512), if th { 4 } else { 3 }).with_prefix(prefix));
+    }
+    // f lies between two runs of deleted slots; a later file needs more slots than either run has
+    {
+        let mut c = vol::tiny_with(FatType::Fat12, 12, 16);
+        c.name = format!("{}-holes", c.name);
+        let r = DirRef::Root;
+        let prefix = vec![
+            Op::CreateFile { base: r, path: "a".into(), keep: None },
+            Op::CreateFile { base: r, path: "f".into(), keep: Some(0) },
+            Op::WriteAll { h: 0, len: 512 },
+            Op::Flush { h: 0 },
+            Op::CreateFile { base: r, path: "b".into(), keep: None },
+            Op::Remove { base: r, path: "a".into() },
+            Op::Remove { base: r, path: "b".into() },
+        ];
+        let mut al = alphabet(512);
+        al.push(Op::CreateFile { base: r, path: "a-name-that-needs-four-slots".into(), keep: None });
+        v.push(ExpSpec::new(c, al, 2).with_prefix(prefix));
     }
     let _ = new_dev;
     v
